@@ -33,6 +33,10 @@ def scenarios(tier):
                 continue  # nothing to read or delete
             out.append({"name": "%s||%s doc %s" % (a, b, st), "init": init, "formats": FORMATS, "pids": ("p1",),
                         "threads": {"T1": [MENU[a]], "T2": [MENU[b]]}})
+    out.append({"name": "Da||Da two documents", "init": "meta2", "formats": FORMATS, "pids": ("p1",),
+                "threads": {"T1": [MENU["Da"]], "T2": [MENU["Da"]]}})
+    out.append({"name": "M1||R||Df from meta (pre-emption bound 2)", "init": "meta", "bound": 2, "formats": FORMATS,
+                "pids": ("p1",), "threads": {"T1": [MENU["M1"]], "T2": [MENU["R"]], "T3": [MENU["Df"]]}})
     out.append({"name": "Df||Df||M1f from meta (pre-emption bound 2)", "init": "meta", "bound": 2, "formats": FORMATS,
                 "pids": ("p1",), "threads": {"T1": [MENU["Df"]], "T2": [MENU["Df"]], "T3": [MENU["M1f"]]}})
     out.append({"name": "M1||M1f doc absent (pristine directories)", "init": "empty", "pristine": True, "formats": FORMATS,
@@ -40,6 +44,8 @@ def scenarios(tier):
     out.append({"name": "Df||Df||M1 from meta (pre-emption bound 2)", "init": "meta", "bound": 2, "formats": FORMATS,
                 "pids": ("p1",), "threads": {"T1": [MENU["Df"]], "T2": [MENU["Df"]], "T3": [MENU["M1"]]}})
     if tier == "thorough":
+        out.append({"name": "Da||DO two documents", "init": "p1A+meta2", "formats": FORMATS, "pids": ("p1",),
+                    "threads": {"T1": [MENU["Da"]], "T2": [MENU["DO"]]}})
         for tri, init in [(("M1", "M2", "R"), "meta"), (("M1", "Da", "R"), "meta"), (("Da", "Da", "M1"), "meta2"),
                           (("M1", "DO", "R"), "p1A+meta"), (("Df", "Da", "M2"), "meta"), (("M1", "M2", "Da"), "empty")]:
             out.append({"name": "%s||%s||%s from %s (pre-emption bound 2)" % (tri + (init,)), "init": init, "bound": 2,
